@@ -964,7 +964,8 @@ ASSUMPTIONS = [
     "every blank-node label of a document also occurs as subject of one tag statement (documents of the suite are written that way); labels that occur in no statement position do not exist in these syntaxes",
     "TriX documents of the suite name every graph (an unnamed TriX graph is stored under a new blank-node name: C06-F17)",
     "which parser follows which label discipline (Parse/Model.v disc_of, Parse/Machines.v alloc_of) is read off the code and re-established by every run of this check (suites parse_merge and machines); "
-    "that the machines refine the abstract model under the supply their draws define is a theorem (C12_machines_refine_abstract*), the suite machines adds the comparison with rdflib",
+    "that the machines refine the abstract model under the supply their draws define is a theorem (C12_machines_refine_abstract*), the suite machines adds the comparison with rdflib; "
+    "that the abstract run does not depend on the supply (std_fresh of the suite vs any proper supply) is a theorem (C12_run_supply_independent*, C12_suite_run_supply_independent)",
     "a malformed document of the suite breaks at a place where no further blank-node label has been read; a malformed JSON-LD document is malformed JSON (nothing is added: the model is given no statements for it)",
     "N3 formulas { ... } (labels scoped to the formula) and collections ( ... ) are not written by the suite",
     "transactional store = AuditableStore over Memory behind ConjunctiveGraph / Graph (Dataset, N-Quads, HexTuples and N3 refuse that store); "
